@@ -1,4 +1,5 @@
 import Ccp.Proofs.Typed
+import Ccp.Props.C03
 /-!
 # C05 — typed value extraction returns the first match in family order, else the default
 
@@ -28,7 +29,7 @@ exactly the set of descendants is C03's theorem about the shared tree model. -/
 theorem order_spec (t : T) (i : Nat) :
     order t i true = i :: allChildren t i ∧ order t i false = i :: children t i ∧
     (allChildren t i).Pairwise (· ≤ ·) ∧ (children t i).Pairwise (· < ·) :=
-  ⟨rfl, rfl, allChildren_sorted t i, children_sorted t i⟩
+  ⟨rfl, rfl, Ccp.Tree.sortKeep_sorted _, Ccp.Tree.children_sorted t i⟩
 
 /-- the lines after `i` in the non-recursive order are exactly the direct children of `i`:
 the other lines whose parent is `i` -/
@@ -153,6 +154,197 @@ theorem root_iter_spec (c : Ctx) (ty : Ty) (d : Arg) (u : Bool) :
   · intro h
     rw [root_eq_firstLoop, firstLoop_none c ty _ h]; rfl
 
+/-! ## parsed configs: the recursive order is "the line, then all its descendants in config order"
+
+`Ccp.C03.parse_forest` makes every `parse cfg ls` a forest, so the statements below have no
+hypothesis on the tree. -/
+
+/-- **The recursive family order of a parsed config** is exactly line `i` followed by all its
+descendants (the lines with `i` on their ancestor chain = `IsAncestor`, the transitive closure
+of the parent link), in config order, each once. -/
+theorem order_is_descendants (cfg : Cfg) (ls : List Str) (i : Nat) :
+    let t := parse cfg ls
+    order t i true = i :: (List.range t.size).filter (fun j => decide (i ∈ ancestors t j)) ∧
+    (∀ j, j ∈ order t i true ↔ j = i ∨ IsAncestor t i j) ∧
+    (order t i true).Pairwise (· < ·) ∧ (order t i true).Nodup := by
+  intro t
+  have hf : Forest t := Ccp.C03.parse_forest cfg ls
+  have he := order_eq_familyLines hf i
+  refine ⟨he, ?_, ?_, ?_⟩
+  · intro j; rw [he]; exact mem_familyLines hf i j
+  · rw [he]; exact familyLines_sorted t i
+  · rw [he]; exact nodup_of_sorted (familyLines_sorted t i)
+
+/-- the same for the non-recursive order: line `i`, then the other lines whose parent is `i`,
+in config order, each once -/
+theorem order_is_children (cfg : Cfg) (ls : List Str) (i : Nat) :
+    let t := parse cfg ls
+    (∀ j, j ∈ order t i false ↔ j = i ∨ (j < t.size ∧ parentOf t j = i ∧ j ≠ i)) ∧
+    (order t i false).Pairwise (· < ·) := by
+  intro t
+  have hf : Forest t := Ccp.C03.parse_forest cfg ls
+  refine ⟨fun j => by simp [order, mem_children], ?_⟩
+  refine List.pairwise_cons.mpr ⟨fun j hj => Ccp.C03.children_after hf hj, Ccp.Tree.children_sorted t i⟩
+
+/-- a parsed config with its oracles -/
+def parsed (cfg : Cfg) (ls : List Str) (g : Str → GroupRes) (ip : Arg → Except Err Str) : Ctx :=
+  { g := g, ip := ip, t := parse cfg ls }
+
+/-- **First match, parsed configs**: `re_match_iter_typed(recurse=True)` answers with the converted
+group of the first matching line among line `i` and its descendants in config order. -/
+theorem iterTyped_first_parsed (cfg : Cfg) (ls : List Str) (g : Str → GroupRes) (ip : Arg → Except Err Str)
+    (i : Nat) (ty : Ty) (d : Arg) (u : Bool) (j : Nat)
+    (h : FirstMatch (parsed cfg ls g ip) (familyLines (parse cfg ls) i) j) :
+    reMatchIterTyped (parsed cfg ls g ip) i ty d u true = convGroup ip ty ((parsed cfg ls g ip).at j) := by
+  rw [← order_eq_familyLines (Ccp.C03.parse_forest cfg ls) i] at h
+  exact iterTyped_first (parsed cfg ls g ip) i ty d u true j h
+
+/-- **Default, parsed configs**: the default (converted iff not untyped) is the answer exactly when
+neither line `i` nor any of its descendants matches. -/
+theorem iterTyped_default_parsed (cfg : Cfg) (ls : List Str) (g : Str → GroupRes) (ip : Arg → Except Err Str)
+    (i : Nat) (ty : Ty) (d : Arg) (u : Bool)
+    (h : ∀ j, j = i ∨ IsAncestor (parse cfg ls) i j → matched ((parsed cfg ls g ip).at j) = false) :
+    reMatchIterTyped (parsed cfg ls g ip) i ty d u true = (if u then .ok (Val.ofArg d) else conv ip ty d) := by
+  apply iterTyped_default (parsed cfg ls g ip) i ty d u true
+  intro k hk
+  exact h k (((order_is_descendants cfg ls i).2.1 k).mp hk)
+
+/-- **List variant, parsed configs**: the conversion mapped over the matching lines among line `i`
+and its descendants, in config order. -/
+theorem listTyped_spec_parsed (cfg : Cfg) (ls : List Str) (g : Str → GroupRes) (ip : Arg → Except Err Str)
+    (i : Nat) (ty : Ty) :
+    reListIterTyped (parsed cfg ls g ip) i ty true =
+      ((familyLines (parse cfg ls) i).filter (fun j => matched ((parsed cfg ls g ip).at j))).mapM
+        (fun j => convGroup ip ty ((parsed cfg ls g ip).at j)) := by
+  have he : order (parsed cfg ls g ip).t i true = familyLines (parse cfg ls) i :=
+    order_eq_familyLines (Ccp.C03.parse_forest cfg ls) i
+  rw [listTyped_spec, he]; rfl
+
+/-- **Config level, parsed configs**: the lines read are those without an ancestor, in config order. -/
+theorem root_iter_spec_parsed (cfg : Cfg) (ls : List Str) (g : Str → GroupRes) (ip : Arg → Except Err Str)
+    (ty : Ty) (d : Arg) (u : Bool) :
+    let c := parsed cfg ls g ip
+    (∀ j, j ∈ roots c.t ↔ j < c.t.size ∧ ancestors c.t j = []) ∧
+    (∀ j, FirstMatch c (roots c.t) j → rootIterTyped c ty d u = convGroup ip ty (c.at j)) ∧
+    (NoMatch c (roots c.t) → rootIterTyped c ty d u = (if u then .ok (Val.ofArg d) else conv ip ty d)) := by
+  intro c
+  have hf : Forest c.t := Ccp.C03.parse_forest cfg ls
+  have h := root_iter_spec c ty d u
+  refine ⟨fun j => ?_, h.2.2.1, h.2.2.2⟩
+  rw [h.1 j, root_iff_no_ancestors hf j]
+
+/-! ## outside the property's quantifier (the property speaks of "the requested capture group")
+
+### the `groupdict=` path, as the code is now -/
+
+/-- `get_regex_typed_dict` without a match: every key gets the default, unconverted. -/
+theorem typedDict_nomatch (c : DCtx) (d : Arg) :
+    typedDict c d none = .ok (c.keys.map (fun _ => Val.ofArg d)) := rfl
+
+/-- `get_regex_typed_dict`, one key: a participating group is converted — unless its text *equals*
+the default (the code tests `value != default`), in which case the text is returned unconverted;
+a key that is no group name of the pattern gets the default; a non-participating group is `None`,
+converted like any value (`str(None)`, `int(None)` raising) unless the default is `None` too. -/
+theorem dictEntry_spec (ip : Arg → Except Err Str) (d : Arg) (ty : Ty) (s : Str) :
+    (Arg.str s ≠ d → dictEntry ip d (some ty) (.val s) = conv ip ty (.str s)) ∧
+    (dictEntry ip (.str s) (some ty) (.val s) = .ok (.str s)) ∧
+    (dictEntry ip d none (.val s) = .ok (.str s)) ∧
+    (dictEntry ip d (some ty) .noGroup = .ok (Val.ofArg d)) ∧
+    (Arg.none ≠ d → dictEntry ip d (some ty) .unset = conv ip ty .none) ∧
+    (dictEntry ip .none (some ty) .unset = .ok .none) := by
+  refine ⟨fun h => by simp [dictEntry, h], by simp [dictEntry], rfl, rfl, fun h => by simp [dictEntry, h],
+    by simp [dictEntry]⟩
+
+/-- `re_match_iter_typed(groupdict=…, recurse=True)` does follow the family order: the typed dict of
+the first matching line of `order t i true`, the all-default dict when none matches. -/
+theorem iterDict_recurse (c : DCtx) (i : Nat) (d : Arg) :
+    reMatchIterDict c i d true = typedDict c d (firstSome c (order c.t i true)) ∧
+    (∀ pre j post rows, order c.t i true = pre ++ j :: post → (∀ k ∈ pre, c.at k = none) → c.at j = some rows →
+      reMatchIterDict c i d true = typedDict c d (some rows)) ∧
+    ((∀ k ∈ order c.t i true, c.at k = none) →
+      reMatchIterDict c i d true = .ok (c.keys.map (fun _ => Val.ofArg d))) := by
+  refine ⟨iterDict_recurse_eq c i d, ?_, ?_⟩
+  · intro pre j post rows hl hpre hj
+    rw [iterDict_recurse_eq, hl, firstSome_split c pre post j hpre, hj]
+  · intro h
+    rw [iterDict_recurse_eq, firstSome_none c _ h]; rfl
+
+/-- **Defective behaviour** of `re_match_iter_typed(groupdict=…, recurse=False)`: when the line
+itself does not match, the answer is computed from the *first child alone*, whether or not it
+matches (the loop body returns unconditionally); later children are never read.  The statement
+one would expect (first matching line of `order t i false`) is false, see the example below. -/
+theorem iterDict_norecurse_partial (c : DCtx) (i : Nat) (d : Arg) :
+    (∀ rows, c.at i = some rows → reMatchIterDict c i d false = typedDict c d (some rows)) ∧
+    (c.at i = none → reMatchIterDict c i d false = typedDict c d ((children c.t i).head?.bind c.at)) := by
+  constructor
+  · intro rows h; simp [reMatchIterDict, h]
+  · intro h
+    simp only [reMatchIterDict, h]
+    cases children c.t i <;> rfl
+
+/-- **Defective behaviour** of `re_list_iter_typed(groupdict=…)`: it never returns.  The answer is
+`NameError` (`retval` is read before it is assigned) unless the conversion of the first line it
+processes raises first. -/
+theorem listDict_never_returns_partial (c : DCtx) (i : Nat) (r : Bool) :
+    (∀ rows, reListIterDict c i r ≠ .ok rows) ∧
+    (listDictFirst c i r = none → reListIterDict c i r = .error .nameError) ∧
+    (∀ mm vs, listDictFirst c i r = some mm → typedDict c .none mm = .ok vs →
+      reListIterDict c i r = .error .nameError) := by
+  refine ⟨?_, ?_, ?_⟩
+  · intro rows h
+    unfold reListIterDict at h
+    split at h
+    · cases h
+    · split at h <;> cases h
+  · intro h; simp [reListIterDict, h]
+  · intro mm vs h hv; simp [reListIterDict, h, hv]
+
+/-! ### the `search_safe` guard, on the edit states of `Ccp.Edit` -/
+
+/-- **Stale config**: on a state whose checkpoint moved since the last commit (`S.stale`), `re_match`,
+`re_match_typed`, `re_match_iter_typed` and `re_list_iter_typed` of a committed object all raise
+`NotImplementedError`; on a non-stale state they answer from the tree of the last commit. -/
+theorem stale_raises (s : Edit.S) (g : Str → GroupRes) (ip : Arg → Except Err Str)
+    (h : Nat) (ty : Ty) (d : Arg) (u r : Bool) :
+    (s.stale = true →
+      stMatch s g ip h d = .error .notImplemented ∧ stMatchTyped s g ip h ty d u = .error .notImplemented ∧
+      stIterTyped s g ip h ty d u r = .error .notImplemented ∧ stListTyped s g ip h ty r = .error .notImplemented) ∧
+    (s.stale = false →
+      stMatch s g ip h d = reMatch (onState s g ip) h d ∧
+      stMatchTyped s g ip h ty d u = reMatchTyped (onState s g ip) h ty d u ∧
+      stIterTyped s g ip h ty d u r = reMatchIterTyped (onState s g ip) h ty d u r ∧
+      stListTyped s g ip h ty r = reListIterTyped (onState s g ip) h ty r) := by
+  constructor <;> intro hs <;> simp [stMatch, stMatchTyped, stIterTyped, stListTyped, guarded, hs]
+
+/-- which states are stale (from `Ccp.Edit`): a fresh parse is not; `ConfigList.insert` makes the
+state stale iff `auto_commit` is off; `commit` clears it; the guard of the typed helpers is the
+one every search API has (`Op.probe`). -/
+theorem stale_states (cfg : Cfg) (auto : Bool) (w : Nat) (ls : List Str) (s : Edit.S) (k : Int) (txt : Str) :
+    (Edit.init cfg auto w ls).stale = false ∧ (Edit.init cfg auto w ls).tree = parse cfg ls ∧
+    (Edit.step s (.insert k txt)).1.stale = !s.auto ∧
+    (Edit.step s .commit).1.stale = false ∧
+    ((Edit.step s .probe).2 = .error .notImplemented ↔ s.stale = true) := by
+  refine ⟨rfl, rfl, ?_, rfl, ?_⟩
+  · cases ha : s.auto <;> simp [Edit.step, Edit.autoCommit, Edit.commit, ha]
+  · cases hs : s.stale <;> simp [Edit.step, hs]
+
+/-- `CiscoConfParse.re_match_iter_typed` on a committed state (the current list is the list of the
+last commit) is the config-level extraction of `root_iter_spec` on the committed tree. -/
+theorem root_on_committed (s : Edit.S) (g : Str → GroupRes) (ip : Arg → Except Err Str) (ty : Ty) (d : Arg) (u : Bool)
+    (h : s.items = Edit.committedItems s.tree) :
+    stRootIterTyped s g ip ty d u = rootIterTyped (onState s g ip) ty d u := by
+  unfold stRootIterTyped rootIterTyped
+  rw [h, Edit.committedItems, rootLoopItems_committed g ip s.tree ty s.tree.texts 0 (by simp)]
+  simp [onState, T.size, List.range_eq_range']
+
+/-- **Missing guard** (`_partial`: what the code does, not what the other search APIs do):
+`CiscoConfParse.re_match_iter_typed` has no `search_safe` test — its answer does not depend on
+`S.stale`; on a stale state it reads the current list, uncommitted lines included (each is its own
+parent, hence a "root"), see the example below. -/
+theorem root_unguarded_partial (s : Edit.S) (g : Str → GroupRes) (ip : Arg → Except Err Str) (ty : Ty) (d : Arg)
+    (u b : Bool) :
+    stRootIterTyped { s with stale := b } g ip ty d u = stRootIterTyped s g ip ty d u := rfl
+
 /-! ### non-vacuity: a concrete config, parsed by the tree model -/
 
 def exCfg : Cfg := { ios := true, delims := ['!'], ignoreBlank := false }
@@ -190,5 +382,37 @@ example : reMatchTyped { exC with g := fun _ => .unset } 0 .str (.str "d".toList
   decide +kernel
 example : reMatchIterTyped { exC with g := fun _ => .unset } 0 .str (.str "d".toList) false true
     = .ok (.str "None".toList) := by decide +kernel
+
+/-! ### non-vacuity for the parts outside the quantifier -/
+
+-- descendants of line 0 of the example config: 1, 2, 3 (line 2 is a grandchild)
+example : familyLines exC.t 0 = [0, 1, 2, 3] ∧ IsAncestor exC.t 0 2 :=
+  ⟨by decide +kernel, ((order_is_descendants exCfg exLines 0).2.1 2).mp (by decide +kernel) |>.resolve_left (by decide)⟩
+
+/-- `mtu (?P<m>\d+)` with `groupdict={"m": int}` -/
+def exD : DCtx :=
+  { gd := fun s => match exG s with | .val r => some [.val r] | _ => none,
+    ip := fun _ => .error (.ext []), keys := [some .int], t := parse exCfg exLines }
+
+-- recurse=True finds the grandchild; recurse=False stops at the first child (" description x", no match)
+-- and answers the default although the later child " mtu 9000" matches
+example : reMatchIterDict exD 0 (.int (-1)) true = .ok [.int 1500] := by decide +kernel
+example : reMatchIterDict exD 0 (.int (-1)) false = .ok [.int (-1)] := by decide +kernel
+example : children exD.t 0 = [1, 3] ∧ exD.at 1 = none ∧ exD.at 3 = some [.val "9000".toList] := by decide +kernel
+example : reListIterDict exD 0 true = .error .nameError := by decide +kernel
+-- a group text equal to the default is returned unconverted
+example : reMatchIterDict exD 5 (.str "7".toList) true = .ok [.str "7".toList] := by decide +kernel
+
+/-- parse, then `ConfigList.insert(1, " mtu 7")` with auto_commit off: stale -/
+def exS : Edit.S := (Edit.step (Edit.init exCfg false 1 exLines) (.insert 1 " mtu 7".toList)).1
+
+example : exS.stale = true := by decide +kernel
+example : stIterTyped exS exG (fun _ => .error (.ext [])) 0 .int (.int (-1)) false true = .error .notImplemented := by
+  decide +kernel
+-- the unguarded config-level method answers from the uncommitted (indented) line
+example : stRootIterTyped exS exG (fun _ => .error (.ext [])) .int (.int (-1)) false = .ok (.int 7) := by decide +kernel
+-- after a commit the state is searchable again and the inserted line is a child of line 0
+example : stIterTyped (Edit.step exS .commit).1 exG (fun _ => .error (.ext [])) 0 .int (.int (-1)) false false
+    = .ok (.int 7) := by decide +kernel
 
 end Ccp.C05
